@@ -120,6 +120,37 @@ class ExprMixin:
     def dkeys(self, st, v):
         return st.read("$dkeys", Val.r(v.t))
 
+    def dhas(self, st, d, key_t):
+        """z3 Bool: key in dict d"""
+        return z3.Select(st.read("$dhas", Val.r(d.t)), key_t)
+
+    def dict_link(self, st, d):
+        """relate the iteration sequence of dict d to its membership array (assumed representation fact):
+        the keys enumerated are exactly the members, without repetition"""
+        keys, has = self.dkeys(st, d), st.read("$dhas", Val.r(d.t))
+        j, j2 = fresh_int("j"), fresh_int("j")
+        kv = fresh_val("lk")
+        idx = z3.Function(fresh_name("kidx"), Val, Int)
+        st.assume(qforall([j], z3.Implies(z3.And(0 <= j, j < z3.Length(keys)), z3.And(z3.Select(has, keys[j]), idx(keys[j]) == j)), patterns=[keys[j]]))
+        st.assume(qforall([kv], z3.Implies(z3.Select(has, kv), z3.And(0 <= idx(kv), idx(kv) < z3.Length(keys), keys[idx(kv)] == kv)), patterns=[idx(kv)]))
+        st.assume((z3.Length(keys) == 0) == (has == z3.K(Val, False)) if False else z3.BoolVal(True))
+
+    def entry_fact(self, st, d, k, val):
+        """z3 Bool or None: representation invariant of the dict-valued field d was read from, at entry (k, val)"""
+        if d.src is None:
+            return None
+        owner, field = d.src
+        txt = self.reg.dict_fact(base_type(owner.ty), field)
+        if not txt:
+            return None
+        return self.spec(st, st, txt, {"_owner": owner, "_k": k, "_v": val})
+
+    def touch_key(self, st, k):
+        f = key_trig(k.t)
+        st.assume(f)
+        if f.get_id() not in self._gf_ids and not self.has_bound_var(f):
+            self._gf_ids.add(f.get_id()); self.global_facts.append(f)
+
     def dmap(self, st, v):
         return st.read("$dmap", Val.r(v.t))
 
@@ -139,7 +170,8 @@ class ExprMixin:
     def alloc(self, st, cls, ty=None):
         """fresh object reference, distinct from every pre-existing and earlier-allocated object"""
         a = fresh_int("addr")
-        st.assume(a == self.frontier + st.nalloc)
+        st.assume(a == st.front)
+        st.front = a + 1
         st.nalloc += 1
         v = V(RefV(a), ty or cls)
         st.heap["$class"] = z3.Store(st.field("$class"), a, self.reg.classtag(base_type(cls)))
@@ -154,9 +186,10 @@ class ExprMixin:
         st.heap["$elems"] = z3.Store(st.field("$elems"), Val.r(v.t), seq)
         return v
 
-    def new_dict(self, st, keys, mp, ty="dict"):
+    def new_dict(self, st, keys, mp, ty="dict", has=None):
         v = self.alloc(st, "dict", ty)
         st.heap["$dkeys"] = z3.Store(st.field("$dkeys"), Val.r(v.t), keys)
+        st.heap["$dhas"] = z3.Store(st.field("$dhas"), Val.r(v.t), has if has is not None else z3.K(Val, False))
         st.heap["$dmap"] = z3.Store(st.field("$dmap"), Val.r(v.t), mp)
         return v
 
@@ -226,9 +259,8 @@ class ExprMixin:
         if obj.ty and obj.ty.startswith("opt:"):
             self.oblige(f"type-safety:not-None .{attr}@L{lineno}", "type-safety", Val.is_RefV(obj.t), st, lineno)
         t = st.read(attr, Val.r(obj.t))
-        v = V(t, ft)
-        if ft:
-            self.typed(st, v)     # heap typing invariant: assumed on reads, checked on writes
+        v = V(t, ft, src=(obj, attr))
+        self.typed(st, v)     # heap typing invariant: assumed on reads, checked on writes
         return [Res(st, v)]
 
     def typed(self, st, v):
@@ -239,17 +271,18 @@ class ExprMixin:
             for x in v:
                 self.typed(st, x)
             return v
-        if v.ty is None:
-            return v
         n0 = len(st.pc)
-        self.assume_type(st, v)
+        if st.front is not None:
+            st.assume(z3.Implies(Val.is_RefV(v.t), Val.r(v.t) < st.front))    # only allocated objects are stored in the heap
+        if v.ty is not None:
+            self.assume_type(st, v)
         for f in st.pc[n0:]:
             if f.get_id() not in self._gf_ids and not self.has_bound_var(f):
                 self._gf_ids.add(f.get_id()); self.global_facts.append(f)
         return v
 
     def has_bound_var(self, f):
-        return any(n.startswith("q_") or n.startswith("k!") or n.startswith("j!") for n in self.free_names(f))
+        return any(n.startswith("q_") or n.startswith("qk_") or n.startswith("k!") or n.startswith("j!") for n in self.free_names(f))
 
     def free_names(self, f):
         out, todo, seen = set(), [f], set()
@@ -433,7 +466,8 @@ class ExprMixin:
         if ty in ("list", "set", "tuple"):
             return z3.Contains(self.elems(st, cont), z3.Unit(item.t))
         if ty == "dict":
-            return z3.Contains(self.dkeys(st, cont), z3.Unit(item.t))
+            self.touch_key(st, item)
+            return self.dhas(st, cont, item.t)
         if ty == "str":
             return z3.Contains(Val.s(cont.t), Val.s(item.t))
         raise Unsupported(f"'in' on {cont.ty} at line {lineno}")
@@ -482,11 +516,16 @@ class ExprMixin:
             if self.feasible(bad): out.append(Res(bad, None, "raise", "IndexError"))
             return out
         if ty == "dict":
-            has = z3.Contains(self.dkeys(st, c), z3.Unit(k.t))
+            self.touch_key(st, k)
+            has = self.dhas(st, c, k.t)
             ok = st.copy(); ok.assume(has)
             bad = st.copy(); bad.assume(z3.Not(has))
             out = []
-            if self.feasible(ok): out.append(Res(ok, self.typed(ok, V(z3.Select(self.dmap(ok, c), k.t), elem_type(c.ty)))))
+            if self.feasible(ok):
+                val = self.typed(ok, V(z3.Select(self.dmap(ok, c), k.t), elem_type(c.ty)))
+                f = self.entry_fact(ok, c, k, val)
+                if f is not None: ok.assume(f)
+                out.append(Res(ok, val))
             if self.feasible(bad): out.append(Res(bad, None, "raise", "KeyError"))
             return out
         raise Unsupported(f"subscript on {c.ty} at line {lineno}")
@@ -533,11 +572,12 @@ class ExprMixin:
         nodes = [x for kv in zip(n.keys, n.values) for x in kv]
 
         def k(s, vs):
-            keys, mp = z3.Empty(SeqV), z3.K(Val, NONE)
+            keys, mp, has = z3.Empty(SeqV), z3.K(Val, NONE), z3.K(Val, False)
             for i in range(0, len(vs), 2):
-                keys = z3.Concat(keys, z3.Unit(vs[i].t)) if i else z3.Unit(vs[i].t)
+                keys = z3.Concat(keys, z3.Unit(vs[i].t)) if i else z3.Unit(vs[i].t)   # literal keys are distinct in the code under contract
                 mp = z3.Store(mp, vs[i].t, vs[i + 1].t)
-            return [Res(s, self.new_dict(s, keys, mp, "dict"))]
+                has = z3.Store(has, vs[i].t, True)
+            return [Res(s, self.new_dict(s, keys, mp, "dict", has=has))]
         return self.evseq(st, nodes, k)
 
     def ev_NamedExpr(self, st, n):
@@ -589,7 +629,7 @@ class ExprMixin:
             if not g.ifs:
                 ev = self.ev1(s2, n.elt)
                 s.assume(z3.Length(res) == it.length)
-                s.assume(z3.ForAll([k], z3.Implies(z3.And(0 <= k, k < it.length), res[k] == ev.t), patterns=[res[k]]))
+                s.assume(qforall([k], z3.Implies(z3.And(0 <= k, k < it.length), res[k] == ev.t), patterns=[res[k]]))
                 out.append(Res(s, self.new_list(s, res, kind + (f"[{ev.ty}]" if ev.ty else ""))))
             else:
                 if not (isinstance(n.elt, ast.Name) or isinstance(n.elt, ast.Tuple)):
@@ -601,13 +641,13 @@ class ExprMixin:
                 idx = z3.Function(fresh_name("fidx"), Int, Int)
                 j = fresh_int("j")
                 s.assume(z3.Length(res) <= it.length)
-                s.assume(z3.ForAll([j], z3.Implies(z3.And(0 <= j, j < z3.Length(res)),
+                s.assume(qforall([j], z3.Implies(z3.And(0 <= j, j < z3.Length(res)),
                          z3.And(0 <= idx(j), idx(j) < it.length,
                                 z3.substitute(cond, (k, idx(j))), res[j] == z3.substitute(ev.t, (k, idx(j))))), patterns=[res[j]]))
                 j2 = fresh_int("j")
-                s.assume(z3.ForAll([j, j2], z3.Implies(z3.And(0 <= j, j < j2, j2 < z3.Length(res)), idx(j) < idx(j2)), patterns=[idx(j), idx(j2)]))
+                s.assume(qforall([j, j2], z3.Implies(z3.And(0 <= j, j < j2, j2 < z3.Length(res)), idx(j) < idx(j2)), patterns=[z3.MultiPattern(idx(j), idx(j2))]))
                 inv = z3.Function(fresh_name("finv"), Int, Int)
-                s.assume(z3.ForAll([k], z3.Implies(z3.And(0 <= k, k < it.length, cond),
+                s.assume(qforall([k], z3.Implies(z3.And(0 <= k, k < it.length, cond),
                          z3.And(0 <= inv(k), inv(k) < z3.Length(res), idx(inv(k)) == k)), patterns=[inv(k)]))
                 self.comp_info[res.decl().name()] = (it, cond, k)
                 out.append(Res(s, self.new_list(s, res, kind + (f"[{ev.ty}]" if ev.ty else ""))))
